@@ -785,6 +785,28 @@ func (c *Ctx) registerZZ(tab map[string]intrinsicFn) {
 		}
 		return c.tensorVal(s)
 	}
+	tab[M+"DtypeTensor"] = func(c *Ctx, fn *ssa.Function, a []Value) Value {
+		name := c.str(a[1])
+		T := types.Typ[types.Int]
+		var x *smt.Term
+		if c.E.Concrete != nil {
+			if _, ok := c.E.Concrete[name+".dtype"]; ok {
+				x = c.symOfType(name+".dtype", T)
+			} else {
+				c.symOfType(name+".dtype", T)
+				x = c.St.BVC(64, 0)
+			}
+		} else {
+			x = c.symOfType(name+".dtype", T)
+		}
+		c.E.SymRanges[name+".dtype"] = [2]int64{0, 13}
+		c.doAssume(c.St.And(c.St.BVSLe(c.St.BVC(64, 0), x), c.St.BVSLe(x, c.St.BVC(64, 13))))
+		s := &Shadow{abs: true, name: name, dtSym: c.St.Extract(x, 7, 0), absShape: []*smt.Term{c.St.BVC(64, 1)}}
+		return c.tensorVal(s)
+	}
+	tab[M+"Fingerprint"] = func(c *Ctx, fn *ssa.Function, a []Value) Value {
+		return c.fingerprint(a[1], 0, map[*Value]bool{})
+	}
 	tab[M+"Protect"] = func(c *Ctx, fn *ssa.Function, a []Value) Value {
 		if s := c.asShadow(a[2]); s != nil {
 			c.protected[s] = c.str(a[1])
@@ -819,4 +841,102 @@ func (c *Ctx) doAssume(cond *smt.Term) {
 			panic(pathEnd{})
 		}
 	}
+}
+
+// fingerprint renders the state reachable from a value (pointers followed).
+func (c *Ctx) fingerprint(v Value, depth int, seen map[*Value]bool) string {
+	if depth > 12 {
+		return "..."
+	}
+	switch x := v.(type) {
+	case nil:
+		return "nil"
+	case *smt.Term:
+		if !x.IsConst() {
+			panic(c.abort("Fingerprint of symbolic state"))
+		}
+		switch x.Sort.K {
+		case smt.KBool:
+			return fmt.Sprint(x.BoolVal())
+		case smt.KBV:
+			return fmt.Sprint(x.SVal())
+		case smt.KFP32:
+			return fmt.Sprint(float64(x.F32Val()))
+		case smt.KFP64:
+			return fmt.Sprint(x.F64Val())
+		default:
+			f, _ := x.R.Float64()
+			return fmt.Sprint(f)
+		}
+	case string:
+		return strconv.Quote(x)
+	case StructV:
+		var p []string
+		for _, f := range x {
+			p = append(p, c.fingerprint(f, depth+1, seen))
+		}
+		return "{" + strings.Join(p, " ") + "}"
+	case ArrayV:
+		var p []string
+		for _, f := range x {
+			p = append(p, c.fingerprint(f, depth+1, seen))
+		}
+		return "[" + strings.Join(p, " ") + "]"
+	case ScalarArr:
+		var p []string
+		for i := range x.A.ids {
+			p = append(p, c.fingerprint(x.A.Load(c, i), depth+1, seen))
+		}
+		return "[" + strings.Join(p, " ") + "]"
+	case SliceV:
+		if x.B == nil {
+			return "[]"
+		}
+		var p []string
+		for i := 0; i < x.Len; i++ {
+			p = append(p, c.fingerprint(x.B.Load(c, x.Off+i), depth+1, seen))
+		}
+		return "[" + strings.Join(p, " ") + "]"
+	case *Value:
+		if x == nil {
+			return "nil"
+		}
+		if seen[x] {
+			return "&cycle"
+		}
+		seen[x] = true
+		return "&" + c.fingerprint(*x, depth+1, seen)
+	case IfaceV:
+		if x.T == nil {
+			return "nil"
+		}
+		return c.fingerprint(x.V, depth+1, seen)
+	case *MapV:
+		if x == nil {
+			return "map[]"
+		}
+		var p []string
+		for _, k := range x.Order {
+			e := x.M[k]
+			p = append(p, c.fingerprint(e.K, depth+1, seen)+":"+c.fingerprint(e.V, depth+1, seen))
+		}
+		sort.Strings(p)
+		return "map[" + strings.Join(p, " ") + "]"
+	case *Closure:
+		if x == nil {
+			return "func:nil"
+		}
+		return "func"
+	case DtypeV:
+		if x.Idx >= 0 {
+			return dtypeNames[x.Idx]
+		}
+		return "dtype?"
+	case *Shadow:
+		if x == nil {
+			return "nil"
+		}
+		return "tensor" + fmt.Sprint(x.ids.Shape())
+	}
+	return fmt.Sprintf("<%T>", v)
 }
